@@ -41,7 +41,7 @@ contract(IHP, 'IndexHierarchy.__init__', key='IndexHierarchy.__init__[from-hiera
     },
     free_conditions=['name is NAME_DEFAULT'],
     raises={'ErrorInitIndex': 'maybe', 'NotImplementedError': 'maybe'},
-    concrete_inputs='specs.t2_ihinit:concrete_inputs', witness_on_unknown=True, requires_concrete=[], ensures_concrete=['ref_ih_coherent(self)'],
+    concrete_inputs='specs.t2_ihinit:concrete_inputs', witness_on_unknown=True, witness_always=True, requires_concrete=[], ensures_concrete=['ref_ih_coherent(self)'],
     ensures=[
         'self._recache == is_none(self._blocks)',
         'implies(not self._recache, ube("coh", self._blocks, self._levels.lid))',
@@ -155,12 +155,12 @@ contract(IHP, 'IndexHierarchy.values', key='IndexHierarchy.values',
     params=dict(self='IhSelfL'), order=['self'], modifies_self=True, result='elem',
     requires=_SEL_REQ,
     elem_attrs={'values': 'values_of'},
-    concrete_inputs='specs.t2_ihinit:concrete_views', witness_on_unknown=True, requires_concrete=[], ensures_concrete=['ref_ih_view(self, result)'],
+    concrete_inputs='specs.t2_ihinit:concrete_views', witness_on_unknown=True, witness_always=True, requires_concrete=[], ensures_concrete=['ref_ih_view(self, result)'],
     ensures=['not self._recache and ube("coh", self._blocks, self._levels.lid)', 'result == ufe("values_of", self._blocks)', 'self._levels == old(self._levels)'])
 contract(IHP, 'IndexHierarchy.values_at_depth', key='IndexHierarchy.values_at_depth[int]',
     props=['C05', 'C02', 'C12'],
     params=dict(self='IhSelfL', depth_level='int'), order=['self', 'depth_level'], defaults=dict(depth_level='0'), modifies_self=True, result='elem',
-    concrete_inputs='specs.t2_ihinit:concrete_views_depth', witness_on_unknown=True, requires_concrete=[], ensures_concrete=['ref_ih_view(self, result, depth_level)'],
+    concrete_inputs='specs.t2_ihinit:concrete_views_depth', witness_on_unknown=True, witness_always=True, requires_concrete=[], ensures_concrete=['ref_ih_view(self, result, depth_level)'],
     requires=_SEL_REQ,
     calls={'isinstance': dict(params={}, order=['o', 't'], result='bool', ensures=['result']),
            'self._blocks._extract_array': dict(params=dict(column_key='int'), order=[], kwonly=['column_key'], result='elem', ensures=['result == ufe("column_of", self._blocks, column_key)'])},
